@@ -211,6 +211,15 @@ func main() {
 	})
 	expect("time/simultaneous-timers-both-orders", keys(simul.outcomes) == "AB,BA", fmt.Sprintf("outcomes %s", keys(simul.outcomes)))
 
+	// 7b. nobody is "running" after virtual time had to pass: both wake-up orders are free (no
+	//     preemption charged), also when one of the sleepers was the last thread to block
+	simul0 := explore(0, func() string {
+		log := ""
+		join(func() { vs.Sleep(time.Second); log += "A" }, func() { vs.Sleep(time.Second); log += "B" })
+		return log
+	})
+	expect("time/simultaneous-timers-both-orders-without-preemption", keys(simul0.outcomes) == "AB,BA", fmt.Sprintf("outcomes %s at preemption bound 0", keys(simul0.outcomes)))
+
 	// 8. determinism: the same choice sequence gives the same trace; objects whose address keys shim
 	//    state are pinned, so garbage collection between and during executions changes nothing
 	body := func() {
